@@ -47,3 +47,45 @@ def check_no_bare_squeeze(prog: Program, res: Result, rule: str, modules: list[s
                 res.ok(rule, f, qualified[0], f"{len(qualified)} squeeze call(s), each naming the axes it drops", key=f"squeeze:{f.qualname}")
         if not nbad:
             res.ok(rule, None, mod.tree, f"no unqualified squeeze in {m}", key=f"squeeze:{m}", construct=m, where=m)
+
+
+def check_delay_sign(prog: Program, res: Result, rule: str, only: set[str] | None = None) -> int:
+    """The index-form kernels (`dedisperse`, `subband`, `fold`) read `inarray[nchans * (t + delays[c]) + c]` for
+    t in [0, nsamps - maxdelay): with a negative delay the index is negative and wraps to the END of the block, and
+    the plan's skipback (the maximum delay) carries nothing over for channels that lead.  Delays are negative for an
+    ascending band with DM > 0 and for any band with DM < 0.  So the array handed to such a kernel must be
+    non-negative by construction: `D - min(0, int(D.min()))` (or `D - D.min()`), or a raising guard on `D.min() < 0`
+    must dominate the call.  -> number of call sites examined."""
+    from .dataflow import flow_of
+    from .model import calls_in_body
+    from .poly import Poly, PolyEnv
+    n = 0
+    base = prog.module("sigpyproc.base")
+    for f in base.funcs.values():
+        for c in calls_in_body(f.node):
+            d = dotted(c.func) or ""
+            kname = d.split(".")[-1]
+            if not d.startswith("kernels.") or kname not in ("dedisperse", "subband", "fold"):
+                continue
+            if only is not None and kname not in only:
+                continue
+            k = prog.func("sigpyproc.core.kernels", kname)
+            b = prog.bind_args(c, k)
+            arg = b.get("delays")
+            if arg is None:
+                continue
+            n += 1
+            flow = flow_of(f)
+            ex = flow.expand(arg, flow.cfg.node_for(c))
+            p = PolyEnv().poly(ex)
+            D = Poly.sym("self.header.get_dmdelays(dm)")
+            lead = (D - p).canon()
+            key = f"{f.qualname}:{kname}:delay-sign"
+            shifted = (lead.startswith("min(0, ") and ".min()" in lead and "get_dmdelays" in lead) or lead == "self.header.get_dmdelays(dm).min()"
+            if shifted:
+                res.ok(rule, f, c, f"the delays handed to {kname} are counted from the earliest channel (get_dmdelays(dm) - {lead}): none is negative", key=key)
+            else:
+                res.bad(rule, f, c, f"the delays handed to {kname} (`{norm(ex)[:80]}`) can be negative (ascending band, negative DM): the kernel then reads "
+                        "index t + delay < 0, which wraps to the end of the block, and the skipback (max delay) carries nothing over for leading channels",
+                        key=key)
+    return n
